@@ -37,15 +37,17 @@ def drop(d):
 
 def apply_patch(d, patch):
     """apply a kept change to a scratch worktree; when the repository moved on (fix: commits) and the context no longer matches exactly,
-    fall back to a fuzzy apply and refresh the stored patch so that it applies to the current HEAD"""
+    fall back to a 3-way merge on the recorded blobs (never a fuzzy `patch`: a hunk that lands in the wrong function silently changes the
+    mutant) and refresh the stored patch so that it applies to the current HEAD"""
     rc, out = sh(["git", "-C", str(d), "apply", str(patch)])
     if rc == 0: return True, ""
-    rc, out2 = sh(f"cd {d} && patch -p1 -F3 --no-backup-if-mismatch < {patch}")
+    rc, out2 = sh(["git", "-C", str(d), "apply", "--3way", str(patch)])
     if rc == 0:
+        sh(["git", "-C", str(d), "reset", "-q"])
         rc2, diff = sh(["git", "-C", str(d), "diff"])
-        if rc2 == 0 and diff.strip() and str(patch).startswith(str(SEEDED)):
+        if rc2 == 0 and diff.strip() and "<<<<<<<" not in diff and str(patch).startswith(str(SEEDED)):
             pathlib.Path(patch).write_text(diff)
-        return True, "applied with fuzz; stored patch refreshed"
+            return True, "applied by 3-way merge; stored patch refreshed"
     return False, out + out2
 
 
@@ -123,8 +125,27 @@ def cmd_run(ids, tier, props):
     # the evidence files were rewritten by runs against modified trees: they must be regenerated on /repo before committing
 
 
+def cmd_verify(ids):
+    """re-validate the kept changes against the current /repo HEAD: the patch applies, the pinned suite passes, the demo fails with it"""
+    ids = ids or sorted(p.name for p in SEEDED.iterdir() if (p / "patch.diff").exists())
+    bad = []
+    for sid in ids:
+        d = worktree("ver_" + sid)
+        try:
+            okp, out = apply_patch(d, SEEDED / sid / "patch.diff")
+            if not okp: print(sid, "DOES NOT APPLY"); bad.append(sid); continue
+            s_ = suite(d); rc1, _ = demo(d, SEEDED / sid / "demo.py")
+            ok = "141 passed" in s_ and "failed" not in s_ and rc1 != 0
+            print(sid, "ok" if ok else f"INVALID suite[{s_.strip()}] demo_with={rc1}"); sys.stdout.flush()
+            if not ok: bad.append(sid)
+        finally:
+            drop(d)
+    print("invalid:", bad)
+
+
 if __name__ == "__main__":
     a = sys.argv[1:]
+    if a[0] == "verify": cmd_verify(a[1:]); sys.exit(0)
     if a[0] == "import": sys.exit(0 if cmd_import(a[1], a[2]) else 1)
     if a[0] == "run":
         tier = "quick"; props = None; ids = []
